@@ -10,7 +10,7 @@ from enum import Enum
 from typing import Dict, FrozenSet, List, Optional, Set, Tuple, Union
 
 import utype
-from utype import Field, Options, Rule, Schema, exc, types
+from utype import Field, Lax, Options, Rule, Schema, exc, types
 from utype.parser.rule import LogicalType
 from vt.ob import ob
 
@@ -70,6 +70,9 @@ TYPES = {
     'IntLt': Rule.annotate(int, constraints={'lt': 10, 'multiple_of': 2}),
     'StrLen': Rule.annotate(str, constraints={'max_length': 3, 'regex': '[a-z]*'}),
     'DecDigits': Rule.annotate(Decimal, constraints={'max_digits': 4, 'decimal_places': 2}),
+    'LaxDigitsFloat': Rule.annotate(float, constraints={'max_digits': Lax(4)}), 'LaxDigitsDec': Rule.annotate(Decimal, constraints={'max_digits': Lax(3)}),
+    'LaxPlacesFloat': Rule.annotate(float, constraints={'decimal_places': Lax(1)}), 'LaxMultiple': Rule.annotate(int, constraints={'multiple_of': Lax(3)}),
+    'LaxLenStr': Rule.annotate(str, constraints={'max_length': Lax(2)}),
     'UniqueList': Rule.annotate(list, constraints={'unique_items': True, 'max_length': 3}),
     'Contains': Rule.annotate(list, constraints={'contains': types.PositiveInt, 'max_contains': 1}),
     'List[int]': ann(List[int]), 'Set[int]': ann(Set[int]), 'FrozenSet[int]': ann(FrozenSet[int]),
@@ -91,6 +94,7 @@ GROUPS = {
     'scalar': ['int', 'float', 'str', 'bool', 'none', 'bytes', 'decimal', 'enum', 'uuid'],
     'temporal': ['date', 'datetime', 'time', 'timedelta', 'Year', 'Timestamp', 'Datetime', 'date|datetime'],
     'constrained': ['PositiveInt', 'Str', 'IntLt', 'StrLen', 'DecDigits', 'EmailStr', 'SlugStr', 'UniqueList', 'Contains'],
+    'lax': ['LaxDigitsFloat', 'LaxDigitsDec', 'LaxPlacesFloat', 'LaxMultiple', 'LaxLenStr'],
     'plain-container': ['list', 'tuple', 'set', 'frozenset', 'dict', 'Array', 'Object'],
     'generic': ['List[int]', 'Set[int]', 'FrozenSet[int]', 'Tuple[int,str]', 'Tuple[int,...]', 'Dict[str,int]'],
     'nested-generic': ['Dict[int,List[int]]', 'List[List[int]]', 'List[Optional[int]]', 'List[Inner]'],
@@ -163,6 +167,8 @@ def _structural(V, name):
             p = V.pick(pol, ['throw', 'exclude', 'preserve'])
             if p != 'throw':
                 o[pol] = p
+    if V.bool('ignore_constraints'):
+        o['ignore_constraints'] = True
     flags = V.pick('flags', ['none', 'no_data_loss', 'no_explicit_cast', 'both'])
     if flags in ('no_data_loss', 'both'):
         o['no_data_loss'] = True
@@ -184,12 +190,17 @@ def _structural(V, name):
         except TypeError:
             x = xs
     from utype.utils.transform import type_transform
-    call_checked(V, '%s %r' % (name, o), type_transform, x, T, Options(**o))
+    n_in = len(x) if isinstance(x, (list, tuple, collections.deque)) else None
+    r = call_checked(V, '%s %r' % (name, o), type_transform, x, T, Options(**o))
+    if r[0] == 'ok' and n_in is not None and name in ('List[int]', 'Tuple[int,...]') and 'invalid_items' not in o:
+        # without an exclude policy a sequence result has one element per input element: a failure can not vanish
+        V.check(len(r[1]) == n_in, 'totality:failing-element-vanished',
+                lambda: '%s %r: input %r -> %r' % (name, o, x, r[1]))
 
 
 for _n in CONTAINERS:
     ob('structural/' + _n, marks=['accept', 'reject'], budget=(60, 600), per_path=(10, 20), exhaustive=False,
-       bounds='%s under solver-picked collect_errors / max_errors / invalid_* policies / no_data_loss / no_explicit_cast; '
+       bounds='%s under solver-picked collect_errors / max_errors / invalid_* policies / ignore_constraints / no_data_loss / no_explicit_cast; '
               'input = list | tuple | set | frozenset | deque | iterator of <= 3 elements, dict of <= 2 entries (keys incl. '
               'None and a tuple) or a structured string; elements solver int -3..3 | "x" | None | numeric strings | lists | '
               'dicts | hostile objects' % _n,
@@ -296,6 +307,37 @@ def termination_special(V):
                      -10 ** 30, 1e308, '1e308', 2e10, 2e10 + 1, Decimal('2e10'), [float('inf')], ' inf ', '∞'])
     name, T = TERM_TARGETS[V.pick('target', list(range(len(TERM_TARGETS))))]
     call_checked(V, name, T, x)
+
+
+LAX_X = [1234.5, 99.99, 9.99, 0.5, 12.3456, 123456.7, 1e-7, 1e22, -99.95, float('inf'), float('nan'), '1234.5', '99.99', '0.000', b'9.96',
+         Decimal('1234.5'), Decimal('99.99'), Decimal('9.99E+3'), Decimal('0E-5'), Decimal('-0.995'), Decimal('NaN'), 12345, True, None, 'x']
+
+
+@ob('termination/lax-digits', marks=['accept', 'reject'], budget=(60, 200),
+    bounds='float / Decimal / str(to_float) based rules with max_digits=Lax(n) and/or decimal_places=Lax(m), n in 1..5, m in 0..2, '
+           'solver-picked; x picked from %d floats, Decimals and spellings with rounding carries (99.99), integer parts already '
+           'at the limit (1234.5), exponents, NaN/inf: the call returns or raises ParseError (a loop that never ends is a hang '
+           'and confirmed by the 20 s replay)' % len(LAX_X))
+def termination_lax_digits(V):
+    base = V.pick('base', ['float', 'Decimal'])
+    c = {}
+    k = V.pick('constraints', ['digits', 'places', 'both'])
+    if k in ('digits', 'both'):
+        c['max_digits'] = Lax(V.pick('n', [1, 2, 3, 4, 5]))
+    if k in ('places', 'both'):
+        c['decimal_places'] = Lax(V.pick('m', [0, 1, 2]))
+    with V.notrace():
+        try:
+            T = Rule.annotate({'float': float, 'Decimal': Decimal}[base], constraints=c)
+        except exc.ConfigError:
+            # (decimal_places >= max_digits is refused at declaration)
+            V.cover('reject')
+            return
+    x = V.pick('x', LAX_X)
+    r = call_checked(V, 'Rule[%s](%r)' % (base, c), T, x)
+    if r[0] == 'ok' and 'max_digits' in c and r[1] == r[1] and abs(r[1]) != float('inf'):
+        # (a result that still has too many digits is C01's subject; here the call only has to come back)
+        pass
 
 
 def extra_checks(tier, seed):
